@@ -1,10 +1,17 @@
 #!/bin/bash
-# usage: try_patch.sh <patch> <ID> [tier]  -- apply patch to /repo, run check, always revert
-patch=$1; id=$2; tier=${3:-quick}
-cd /repo || exit 9
-if [ -n "$(git status --porcelain -- pydra)" ]; then echo "repo dirty"; exit 9; fi
-git apply "$patch" || { echo "patch does not apply"; exit 9; }
+# usage: try_patch.sh <patch> "<ID> [ID..]" [tier]  -- apply patch in a scratch worktree of /repo HEAD, run checks with VT_REPO there
+patch=$1; ids=$2; tier=${3:-quick}
+wt=/tmp/wt/try_$$
+git -C /repo worktree add -q --detach $wt HEAD || exit 9
+cp /repo/pydra/utils/_version.py $wt/pydra/utils/_version.py
+( cd $wt && git apply "$patch" ) || { echo "patch does not apply"; git -C /repo worktree remove --force $wt; exit 9; }
 cd /verif
-for i in $id; do timeout -s KILL 3600 ./check $i --tier $tier 2>&1 | tail -8; echo "rc=$? for $i"; done
-git -C /repo checkout -- pydra
-git -C /repo status --porcelain -- pydra
+for i in $ids; do
+  VT_REPO=$wt VT_NPROC=${VT_NPROC:-10} timeout -s KILL 5400 ./check $i --tier $tier > /tmp/wt/try_$$.log 2>&1; rc=$?
+  grep -E "VIOLATION|KNOWN-FINDING|HARNESS" /tmp/wt/try_$$.log | cut -c1-260 | head -4
+  grep -E "signature=" /tmp/wt/try_$$.log | cut -c1-300 | head -2
+  tail -1 /tmp/wt/try_$$.log | cut -c1-300
+  echo "RESULT $i rc=$rc"
+done
+rm -f /tmp/wt/try_$$.log
+git -C /repo worktree remove --force $wt
